@@ -438,3 +438,166 @@ theorem agree_run (beh : Behaviour) (evs : List Ev) :
     exact ih (Sys.step beh st ev) this h2
 
 end Tpp
+
+namespace Tpp
+
+/-- the elements an event asks the terminal to show -/
+def Op.elements : Op → List Element
+  | .writeElement e => [e]
+  | .writeString es => es
+  | .rawElement e => [e]
+  | _ => []
+def Ev.elements : Ev → List Element
+  | .op o => o.elements
+  | .resize _ _ _ _ _ _ _ => []
+
+theorem eraseWhere_log (vt : VT) (p) : (vt.eraseWhere p).log = vt.log := rfl
+theorem setMode_log (vt : VT) (on n) : (vt.setMode on n).log = vt.log := by
+  unfold VT.setMode
+  split
+  · rfl
+  · split
+    · rfl
+    · split
+      · rfl
+      · split <;> rfl
+
+/-- what an event adds to the print log: exactly the cells of the elements it writes, in order -/
+theorem step_log (beh : Behaviour) (s : TermState) (vt : VT) (hA : Agree s vt) (ev : Ev) (hw : ev.WF s) :
+    ∃ entries, (Sys.step beh (s, vt) ev).2.log = vt.log ++ entries ∧ entries.map (·.2.2) = ev.elements.map cellOf := by
+  cases ev with
+  | resize w h cells cx cy saved pending => exact ⟨[], by simp [Sys.step, VT.resize], rfl⟩
+  | op o =>
+    simp only [Sys.step, Ev.elements]
+    have hg := hA.1.ground
+    cases o with
+    | writeElement e =>
+      obtain ⟨hA1, hk1, hl1, _, _⟩ := agree_defaultAttr s vt hA
+      obtain ⟨_, ⟨x, y, hlog, _⟩, _⟩ := agree_rawElement beh _ _ e hA1 hw hk1
+      refine ⟨[(x, y, cellOf e)], ?_, by simp [Op.elements]⟩
+      simp only [step, VT.feedAll_append]; rw [hlog, hl1]
+    | writeString es =>
+      obtain ⟨hA1, hk1, hl1, _, _⟩ := agree_defaultAttr s vt hA
+      obtain ⟨_, ⟨entries, hlog, hc⟩, _⟩ := agree_rawElements beh es _ _ hA1 hw hk1
+      refine ⟨entries, ?_, by simpa [Op.elements] using hc⟩
+      simp only [step, VT.feedAll_append]; rw [hlog, hl1]
+    | rawElement e =>
+      obtain ⟨_, ⟨x, y, hlog, _⟩, _⟩ := agree_rawElement beh s vt e hA hw.1 hw.2
+      exact ⟨[(x, y, cellOf e)], hlog, by simp [Op.elements]⟩
+    | defaultAttr => exact ⟨[], by simpa [step] using (agree_defaultAttr s vt hA).2.2.1, rfl⟩
+    | moveCursor p =>
+      obtain ⟨hx0, hxw, hy0, hyh⟩ := hw
+      exact ⟨[], by simp only [step]; rw [feed_moveCursor s vt hA p hx0 hxw hy0 hyh]; simp, rfl⟩
+    | hideCursor =>
+      refine ⟨[], ?_, rfl⟩
+      simp only [step]; split
+      · simp
+      · rw [feed_hide vt hg]; simp
+    | showCursor =>
+      refine ⟨[], ?_, rfl⟩
+      simp only [step]; split
+      · simp
+      · rw [feed_show vt hg]; simp
+    | saveCursor => exact ⟨[], by simp only [step]; rw [feed_save vt hg]; simp, rfl⟩
+    | restoreCursor =>
+      refine ⟨[], ?_, rfl⟩
+      simp only [step]; rw [feed_restore vt hg]
+      cases vt.saved with
+      | none => simp
+      | some q => obtain ⟨x, y⟩ := q; simp
+    | erase k => exact ⟨[], by rw [feed_eraseOp beh s vt hA k]; simp [eraseWhere_log], rfl⟩
+    | enableMouse =>
+      have := feed_mouse beh vt hg true
+      simp only [if_true] at this
+      refine ⟨[], ?_, rfl⟩
+      simp only [step]; rw [this]; repeat' split <;> simp [setMode_log]
+    | disableMouse =>
+      have := feed_mouse beh vt hg false
+      simp only [Bool.false_eq_true, if_false] at this
+      refine ⟨[], ?_, rfl⟩
+      simp only [step]; rw [this]; repeat' split <;> simp [setMode_log]
+    | setTitle t =>
+      refine ⟨[], ?_, rfl⟩
+      simp only [step]; rw [feed_titleOp beh vt hg t hw]; split <;> simp
+    | normalBuffer =>
+      refine ⟨[], ?_, rfl⟩
+      simp only [step]
+      rw [feed_mode vt hg _ 47 0x6C false normalBufferBytes_eq (Or.inr ⟨rfl, rfl⟩)]; simp [setMode_log]
+    | altBuffer =>
+      refine ⟨[], ?_, rfl⟩
+      simp only [step]
+      rw [feed_mode vt hg _ 47 0x68 true altBufferBytes_eq (Or.inl ⟨rfl, rfl⟩)]; simp [setMode_log]
+    | setSize e => exact absurd hw (by simp [Ev.WF, Op.WF])
+
+/-- over a whole history the print log grows by exactly the requested cells, in order -/
+theorem run_log (beh : Behaviour) (evs : List Ev) :
+    ∀ (st : TermState × VT), Agree st.1 st.2 → RunWF beh st evs →
+      ∃ entries, (Sys.run beh st evs).2.log = st.2.log ++ entries ∧
+        entries.map (·.2.2) = (evs.flatMap Ev.elements).map cellOf := by
+  induction evs with
+  | nil => intro st _ _; exact ⟨[], by simp [Sys.run], rfl⟩
+  | cons ev evs ih =>
+    intro st hA hw
+    obtain ⟨h1, h2⟩ := hw
+    obtain ⟨e1, hl1, hc1⟩ := step_log beh st.1 st.2 hA ev h1
+    obtain ⟨e2, hl2, hc2⟩ := ih (Sys.step beh st ev) (agree_step beh st.1 st.2 hA ev h1) h2
+    refine ⟨e1 ++ e2, ?_, ?_⟩
+    · show (Sys.run beh (Sys.step beh st ev) evs).2.log = _
+      rw [hl2, hl1]; simp
+    · simp [hc1, hc2]
+
+end Tpp
+
+namespace Tpp
+
+/-- a fresh terminal object meets a terminal in an unknown state: after the first size declaration they agree -/
+theorem agree_resize_fresh (beh : Behaviour) (s : TermState) (vt : VT) (hA : AgreeRend s vt)
+    (w h : Nat) (cells : Bool → Grid) (cx cy : Nat) (saved : Option (Nat × Nat)) (pending : Bool) :
+    Agree (Sys.step beh (s, vt) (.resize w h cells cx cy saved pending)).1
+          (Sys.step beh (s, vt) (.resize w h cells cx cy saved pending)).2 := by
+  obtain ⟨hg, hok, hrend, hcs, hvis⟩ := hA
+  simp only [Sys.step, step, VT.resize]
+  exact ⟨⟨hg, hok, hrend, by simpa [CharsetAgree] using hcs, hvis⟩,
+    ⟨rfl, rfl, (by intro p hp; cases hp), (by intro p hp; cases hp)⟩⟩
+
+theorem rawElement_cursor (beh : Behaviour) (s : TermState) (e : Element) (p : Point) (hc : s.cursor = some p)
+    (hne : p.x + 1 ≠ s.size.width) :
+    (rawElement beh s e).1.cursor = some ⟨p.x + 1, p.y⟩ ∧ (rawElement beh s e).1.size = s.size := by
+  simp [rawElement, advanceCursor, hc, hne]
+
+/-- consecutive glyphs written from a known position land in consecutive columns of that row -/
+theorem rawElements_positions (beh : Behaviour) (es : List Element) :
+    ∀ (s : TermState) (vt : VT) (p : Point), Agree s vt → s.cursor = some p → (∀ e ∈ es, e.wf = true) →
+      s.last.isSome = true → p.x + es.length ≤ s.size.width →
+      ∃ entries, (vt.feedAll (rawElements beh s es).2).log = vt.log ++ entries ∧
+        entries.map (fun t => (t.1, t.2.1)) = (List.range es.length).map (fun i => (p.x.toNat + i, p.y.toNat)) := by
+  induction es with
+  | nil => intro s vt p _ _ _ _ _; exact ⟨[], by simp [rawElements], rfl⟩
+  | cons e es ih =>
+    intro s vt p hA hc hw hk hlen
+    obtain ⟨hA1, ⟨x, y, hlog, hpos⟩, hk1⟩ := agree_rawElement beh s vt e hA (hw e (by simp)) hk
+    obtain ⟨hx, hy⟩ := hpos p hc
+    obtain ⟨p0, _, _, _, _, _, _⟩ := hA.2.cursor p hc
+    cases es with
+    | nil =>
+      refine ⟨[(x, y, cellOf e)], ?_, ?_⟩
+      · simp only [rawElements, VT.feedAll_append, List.append_nil, VT.feedAll_nil]; exact hlog
+      · simp [hx, hy]
+    | cons e2 es2 =>
+      have hne : p.x + 1 ≠ s.size.width := by simp at hlen; omega
+      obtain ⟨hc1, hs1⟩ := rawElement_cursor beh s e p hc hne
+      obtain ⟨entries, hent, hp2⟩ := ih (rawElement beh s e).1 _ ⟨p.x + 1, p.y⟩ hA1 hc1
+        (fun e' he' => hw e' (by simp [he'])) hk1 (by rw [hs1]; simp at hlen ⊢; omega)
+      refine ⟨(x, y, cellOf e) :: entries, ?_, ?_⟩
+      · simp only [rawElements, VT.feedAll_append] at hent ⊢
+        rw [hent, hlog]; simp
+      · simp only [List.map_cons, hp2, hx, hy]
+        have hr : (e :: e2 :: es2).length = (e2 :: es2).length + 1 := rfl
+        rw [hr, List.range_succ_eq_map]
+        simp only [List.map_cons, List.map_map, Nat.add_zero, List.cons.injEq, true_and]
+        apply List.map_congr_left
+        intro i _
+        simp only [Function.comp, Prod.mk.injEq, and_true]
+        omega
+
+end Tpp
